@@ -13,6 +13,7 @@ pub struct Cfg18 {
     pub signal: u32,
     pub frames: usize, // PCM frames
     pub block: u16,
+    pub window: u8, // 0 = default Tukey(0.5), 1 = Hann, 2 = rectangle
 }
 
 pub fn configs18() -> Vec<Cfg18> {
@@ -26,11 +27,18 @@ pub fn configs18() -> Vec<Cfg18> {
                             if stream_api && frames != 16 {
                                 continue;
                             }
-                            v.push(Cfg18 { name: format!("{}-ch{}-{}{}-lpc{}-sig{}-{}f", if stream_api { "stream" } else { "file" }, ch, if mid_side { "ms" } else { "noms" }, if fast { "-fast" } else { "" }, lpc.unwrap_or(0), signal, frames), stream_api, ch, bps: 16, lpc, mid_side, fast, signal, frames, block: 16 });
+                            v.push(Cfg18 { name: format!("{}-ch{}-{}{}-lpc{}-sig{}-{}f", if stream_api { "stream" } else { "file" }, ch, if mid_side { "ms" } else { "noms" }, if fast { "-fast" } else { "" }, lpc.unwrap_or(0), signal, frames), stream_api, ch, bps: 16, lpc, mid_side, fast, signal, frames, block: 16, window: 0 });
                         }
                     }
                 }
             }
+        }
+    }
+    // non-default analysis windows (per-channel window tables are state the tasks must not share)
+    let base: Vec<Cfg18> = v.iter().filter(|c| c.lpc.is_some() && c.signal == 1).cloned().collect();
+    for c in base {
+        for (window, wn) in [(1u8, "hann"), (2, "rect")] {
+            v.push(Cfg18 { name: format!("{}-{}", c.name, wn), window, ..c.clone() });
         }
     }
     // input sweep on the small configurations (cheap to explore): many signals, so that data-dependent
@@ -40,18 +48,27 @@ pub fn configs18() -> Vec<Cfg18> {
             // mono has 3 schedules per configuration: sweep far more signals there
             let n = if ch == 1 { SWEEP_SIGNALS * 25 } else { SWEEP_SIGNALS };
             for signal in 2..(2 + n) {
-                v.push(Cfg18 { name: format!("sweep-ch{}-{}{}-lpc{}-sig{}", ch, if mid_side { "ms" } else { "noms" }, if fast { "-fast" } else { "" }, lpc.unwrap_or(0), signal), stream_api: false, ch, bps: 16, lpc, mid_side, fast, signal: signal as u32, frames: 16, block: 16 });
+                v.push(Cfg18 { name: format!("sweep-ch{}-{}{}-lpc{}-sig{}", ch, if mid_side { "ms" } else { "noms" }, if fast { "-fast" } else { "" }, lpc.unwrap_or(0), signal), stream_api: false, ch, bps: 16, lpc, mid_side, fast, signal: signal as u32, frames: 16, block: 16, window: 0 });
             }
         }
     }
     // realistic block size (576): FIXED and LPC candidates compete closely there, equal-size candidates occur
     for lpc in [Some(2u8), Some(8)] {
         for signal in 2..(2 + SWEEP_SIGNALS * 12) {
-            v.push(Cfg18 { name: format!("sweep576-ch1-lpc{}-sig{}", lpc.unwrap_or(0), signal), stream_api: false, ch: 1, bps: 16, lpc, mid_side: true, fast: false, signal: signal as u32, frames: 576, block: 576 });
+            v.push(Cfg18 { name: format!("sweep576-ch1-lpc{}-sig{}", lpc.unwrap_or(0), signal), stream_api: false, ch: 1, bps: 16, lpc, mid_side: true, fast: false, signal: signal as u32, frames: 576, block: 576, window: 0 });
         }
     }
     for signal in 2..(2 + SWEEP_SIGNALS) {
-        v.push(Cfg18 { name: format!("sweep576-ch2-fast-lpc2-sig{}", signal), stream_api: false, ch: 2, bps: 16, lpc: Some(2), mid_side: false, fast: true, signal: signal as u32, frames: 576, block: 576 });
+        v.push(Cfg18 { name: format!("sweep576-ch2-fast-lpc2-sig{}", signal), stream_api: false, ch: 2, bps: 16, lpc: Some(2), mid_side: false, fast: true, signal: signal as u32, frames: 576, block: 576, window: 0 });
+    }
+    // LPC subframes are actually chosen at this block size, so whatever differs between the tasks' LPC analyses shows in the bytes:
+    // non-default windows × {stereo fast, stereo exhaustive, 3 channels}
+    for signal in 2..(2 + SWEEP_SIGNALS / 4) {
+        for (window, wn) in [(1u8, "hann"), (2, "rect")] {
+            for (ch, fast, cn) in [(2u8, true, "ch2-fast"), (2, false, "ch2"), (3, false, "ch3")] {
+                v.push(Cfg18 { name: format!("sweep576-{}-lpc8-{}-sig{}", cn, wn, signal), stream_api: false, ch, bps: 16, lpc: Some(8), mid_side: true, fast, signal: signal as u32, frames: 576, block: 576, window });
+            }
+        }
     }
     v
 }
@@ -98,7 +115,12 @@ pub fn encode18(c: &Cfg18) -> Result<Vec<u8>, String> {
         .map_err(|e| format!("{e:?}"))?
         .mid_side(c.mid_side)
         .fast_channel_correlation(c.fast)
-        .seektable_frames(1);
+        .seektable_frames(1)
+        .window(match c.window {
+            1 => flac_codec::encode::Window::Hann,
+            2 => flac_codec::encode::Window::Rectangle,
+            _ => flac_codec::encode::Window::default(),
+        });
     if c.stream_api {
         let mut out = Vec::new();
         let mut w = FlacStreamWriter::new(&mut out, o);
